@@ -41,6 +41,7 @@ func c12(c *Ctx) {
 	c12WriteErr(c)
 	c12RSAPad(c)
 	c12EnumNames(c)
+	c12RSABits(c)
 	idZeroRule(c, "C12.idzero", func(rel string) bool {
 		return rel == "keyset" || strings.HasPrefix(rel, "insecurecleartextkeyset") || strings.HasPrefix(rel, "internal/protoserialization")
 	})
